@@ -100,6 +100,19 @@ chk(
     "panic-site inventory with proof-rule discharge (dominance, provenance, interval and char-class dataflow) + loop-progress and call-graph SCC rules",
 )
 
+chk(
+    "C03",
+    "Partial: language equality between the hand-written parser and the ABNF over all strings is not decided. Decided "
+    "from MIR: comma-separator discipline on every feasible path between element parses (token-level path enumeration), "
+    "rejected trailing separators, non-empty multi-selects, closing-delimiter / ':' / Eof dominance for every Ok result, "
+    "grammar-derived accept sets of nud / led / parse_dot / bracket specifier / bracket contents, and the lexical tables by "
+    "character-class dataflow (character -> action map, identifier classes, whitespace set, error class, lone '=', fallible "
+    "32-bit number parse, '-' rule, unterminated delimiters, invalid JSON literals).",
+    "Trusted: the token-level FIRST/FOLLOW sets transcribed from the ABNF; that locally correct routines compose to the "
+    "grammar (standard recursive-descent argument).",
+    "token-level CFG path enumeration with lookahead facts + dominance + dispatch-table extraction + character-class dataflow",
+)
+
 for pid in [f"C{n:02d}" for n in range(1, 19)]:
     if pid not in CHECKS and pid not in NOT_APPLICABLE:
         na(pid, "check not implemented yet in this revision of /verif (work in progress; see DESIGN.md §3)")
